@@ -7,7 +7,7 @@ of compositions."""
 from ..core import AnalysisError
 from .. import boolx as B
 from .. import q
-from ..rules_stream import (STREAM, PACKET, fx_of, s1_stability, s4_hold, fsm_sanity, prio, fail_closed, short)
+from ..rules_stream import (STREAM, PACKET, fx_of, s1_stability, s1_held_comb, s4_hold, fsm_sanity, prio, fail_closed, short)
 
 EXPLANATION = ("Guarded-assignment IR extracted from the AST of every stream/packet element; each registered "
                "source field's guard must entail ~valid|ready (propositional entailment over the guard atoms, "
@@ -55,6 +55,7 @@ def run(ctx):
         fail_closed(ctx, fx, cls)
         n = s1_stability(ctx, "S1", fx, cls, alt=B.from_expr(alt) if alt else None, alt_reason=why)
         ctx.need(n > 0, f"S1: {cls} has no registered source field any more (instance table stale)")
+        s1_held_comb(ctx, "S1", fx, cls)
         prio(ctx, "PRIO", fx, cls)
 
     # ---- S9 empty accepts
